@@ -15,7 +15,7 @@ import sys
 
 from detsim import kernel
 from detsim.kernel import EventLog, jdump, short_hash
-from detsim.sched import Sched, SimCancelled, StepBudgetExceeded, Replay, RoundRobin, draw_decider, Decider
+from detsim.sched import Sched, SimCancelled, StepBudgetExceeded, Replay, RoundRobin, draw_decider, Decider, wrap_module_locks
 from checks.common import CheckBase
 
 RUN_STEP_BUDGET = 1500000
@@ -82,6 +82,9 @@ class C20(CheckBase):
         self.app.logger.disabled = True
         logging.getLogger('werkzeug').disabled = True
         self.rules = sorted(r.rule for r in self.app.url_map.iter_rules() if r.endpoint != 'static')
+        # locks owned by the system under test must never block the baton holder
+        self.wrapped_locks = wrap_module_locks([m for n, m in sorted(sys.modules.items())
+                                                if m is not None and (n == 'api.app' or n == 'geodepy' or n.startswith('geodepy.'))])
 
     def is_sut_file(self, fn):
         return fn.startswith(self.repo_prefix)
